@@ -141,6 +141,36 @@ def run_symx(ctx, binary, pattern, workers=NCPU, deadline=None, profile=None, ca
     return rec
 
 
+def run_regression(ctx, src, args=(), label=None, timeout=600):
+    """Concrete replay driver of an earlier (fixed) finding: plain `double` instantiation of the real solver on the witness
+    family recorded when the defect was found.  Exit code 1 + a WITNESS line = the violation is back."""
+    exe = os.path.join(ctx.scratch, "reg_" + os.path.basename(src).replace(".cpp", ""))
+    if not os.path.exists(exe):
+        cmd = ["g++", "-std=c++17", "-O1", "-w", "-I" + os.path.join(REPO, "include"), "-I" + EIGEN, os.path.join(VERIF, "replay", src), "-o", exe]
+        t0 = time.time()
+        p = subprocess.run(cmd, stdout=subprocess.PIPE, stderr=subprocess.STDOUT, text=True)
+        ctx.compile_secs += time.time() - t0
+        if p.returncode != 0:
+            raise BuildError(src, p.stdout[-3000:])
+    t0 = time.time()
+    try:
+        p = subprocess.run([exe] + list(args), stdout=subprocess.PIPE, stderr=subprocess.STDOUT, text=True, timeout=timeout)
+        rc, out = p.returncode, p.stdout
+    except subprocess.TimeoutExpired:
+        rc, out = -9, "timeout"
+    rec = {"program": src, "args": list(args), "rc": rc, "wall_s": round(time.time() - t0, 2), "output_tail": out[-600:]}
+    ctx.regressions = getattr(ctx, "regressions", [])
+    ctx.regressions.append(rec)
+    name = (label or src) + (" " + " ".join(args) if args else "")
+    if rc == 1:
+        wit = [l for l in out.splitlines() if l.startswith("WITNESS")]
+        ctx.candidates.append(dict(case="regression:" + name, name="regression:" + src, kind="regression", verdict="sat", scope="", site="", model=None, path="",
+                                   detail=(wit[0] if wit else out[-300:]), binary="", profile="double"))
+    elif rc != 0:
+        ctx.inconclusive.append({"job": "regression:" + name, "why": "exit code %s: %s" % (rc, out[-300:])})
+    return rec
+
+
 # ------------------------------------------------------------------------------------------------
 # known findings
 def load_known():
@@ -239,6 +269,8 @@ def collect(ctx, policy):
 def replay_candidate(ctx, binaries, cand):
     """Concrete replay: run the same case with every symbol fixed to the model value (all arithmetic is then native
     IEEE double arithmetic on the real code).  Returns (confirmed, detail)."""
+    if cand["kind"] == "regression":
+        return True, "concrete double run of the real solver: " + str(cand.get("detail"))[:200]
     if cand["kind"] == "outcome" and not cand.get("model"):
         return True, "deterministic outcome on an explored path"
     model = cand.get("model")
@@ -385,6 +417,7 @@ def finish(ctx, spec, binaries):
             "samples": samples or [{"note": "no solver-decided obligation in this run"}],
             "case_table": case_rows[:400],
             "known_findings_seen": [{"id": k["id"], "count": n} for k, n in seen_known.values()],
+            "concrete_regression_replays": getattr(ctx, "regressions", []),
             "inconclusive": ctx.inconclusive[:50],
             "violations_detail": [{k: v for k, v in x.items() if k != "model"} for x in ctx.violations[:50]],
             "notes": ctx.notes[:50] + spec.get("extra_notes", []),
